@@ -47,9 +47,23 @@ def main():
                                          viol[0].strip()[:120] if viol else ''), flush=True)
       if not ok:
         missed.append(sid)
+    # behaviour-preserving refactorings: no check may raise an alarm
+    if not sys.argv[1:]:
+      for d in sorted(glob.glob(os.path.join(ROOT, 'benign', '*'))):
+        meta = json.load(open(os.path.join(d, 'meta.json')))
+        sh('git', '-C', WT, 'checkout', '--', '.')
+        a = sh('git', '-C', WT, 'apply', os.path.join(d, 'patch.diff'))
+        if a.returncode:
+          print('%s: patch does not apply to HEAD' % os.path.basename(d), flush=True)
+          continue
+        for prop in meta['checks_run']:
+          c = sh(os.path.join(ROOT, 'check'), prop, '--tier', 'quick', cwd=ROOT, env=dict(os.environ, VERIF_REPO=WT))
+          print('%s / %s: %s rc=%d' % (os.path.basename(d), prop, 'quiet' if c.returncode == 0 else 'ALARM', c.returncode), flush=True)
+          if c.returncode:
+            missed.append(os.path.basename(d) + '/' + prop)
   finally:
     sh('git', '-C', '/repo', 'worktree', 'remove', '--force', WT)
-  print('missed: %s' % (missed or 'none'))
+  print('missed / false alarms: %s' % (missed or 'none'))
   return 1 if missed else 0
 
 
